@@ -993,33 +993,43 @@ def rule_encoder_assumptions_reach_sat_calls(ctx):
             for s in b.calls():
                 if callee_matches(callee_of(s), r"SatSolver::solve(_under_assumptions)?$"):
                     k += 1
-                    got = set()
-                    if len(s.node["args"]) > 1:
-                        # elements, not just a capacity: an append / extend / chain onto the assumption vector whose source reads the field
-                        _T = ("core::ops::deref::Deref::deref", "core::ops::deref::DerefMut::deref_mut", "alloc::vec::Vec::as_slice", "core::convert::AsRef::as_ref", "core::borrow::Borrow::borrow")
-
-                        def _creation(op):
-                            return {(o.site.bb, o.site.si) for o in origins(b, op, transparent=_T) if o.kind == "call" and o.site is not None}
-
-                        vroots = _creation(s.node["args"][1])
-                        for c2 in b.calls():
-                            d2 = callee_decl(callee_of(c2))
-                            if re.search(r"concat$", d2 or "") and len(c2.node["args"]) == 1 and _creation(s.node["args"][1]) & {(c2.bb, c2.si)}:
-                                from ..prov import prov as _prov, leaves as _leaves
-
-                                for e in _prov(prog, b, c2.node["args"][0]):
-                                    got |= {l[3][0] for l in _leaves(e) if l[0] == "param" and l[2] == 1 and l[3]}
-                            if d2 in ("alloc::vec::Vec::append", "core::iter::traits::collect::Extend::extend", "alloc::vec::Vec::extend_from_slice", "core::iter::traits::iterator::Iterator::chain", "alloc::slice::concat", "alloc::slice::<impl [T]>::concat") and len(c2.node["args"]) >= 2:
-                                r0 = _creation(c2.node["args"][0])
-                                if (r0 & vroots) or d2.endswith("chain") or d2.endswith("concat"):
-                                    from ..prov import prov as _prov, leaves as _leaves
-
-                                    srcs = [c2.node["args"][1]] + ([c2.node["args"][0]] if d2.endswith("chain") or d2.endswith("concat") else [])
-                                    for so in srcs:
-                                        for e in _prov(prog, b, so):
-                                            got |= {l[3][0] for l in _leaves(e) if l[0] == "param" and l[2] == 1 and l[3]}
+                    got = _appended_self_fields(prog, b, s.node["args"][1], 0) if len(s.node["args"]) > 1 else set()
                     r.check(bool(fields) and fields <= got, "%s|sat-call" % b.id, "additional-assumptions-dropped", "the computer's SAT call carries the additional assumptions (%s)" % sorted(fields), "a SAT call of the maximal-extension computer does not carry the additional assumptions it was given: a search on a dynamic solver's shared SAT solver ignores the encoder's switches", s.loc())
         r.floor(k, 1, "SAT calls of the maximal-extension computer")
+
+
+def _appended_self_fields(prog, b, vec_op, depth):
+    """the fields of `self` (parameter 1) whose elements are appended to the vector `vec_op` of body b; follows a helper method that builds the vector"""
+    from ..prov import prov as _prov, leaves as _leaves
+
+    # elements, not just a capacity: an append / extend / chain onto the assumption vector whose source reads the field
+    _T = ("core::ops::deref::Deref::deref", "core::ops::deref::DerefMut::deref_mut", "alloc::vec::Vec::as_slice", "core::convert::AsRef::as_ref", "core::borrow::Borrow::borrow")
+
+    def _creation(op):
+        return {(o.site.bb, o.site.si) for o in origins(b, op, transparent=_T) if o.kind == "call" and o.site is not None}
+
+    got = set()
+    vroots = _creation(vec_op)
+    for c2 in b.calls():
+        d2 = callee_decl(callee_of(c2))
+        if re.search(r"concat$", d2 or "") and len(c2.node["args"]) == 1 and vroots & {(c2.bb, c2.si)}:
+            for e in _prov(prog, b, c2.node["args"][0]):
+                got |= {l[3][0] for l in _leaves(e) if l[0] == "param" and l[2] == 1 and l[3]}
+        if d2 in ("alloc::vec::Vec::append", "core::iter::traits::collect::Extend::extend", "alloc::vec::Vec::extend_from_slice", "core::iter::traits::iterator::Iterator::chain", "alloc::slice::concat", "alloc::slice::<impl [T]>::concat") and len(c2.node["args"]) >= 2:
+            r0 = _creation(c2.node["args"][0])
+            if (r0 & vroots) or d2.endswith("chain") or d2.endswith("concat"):
+                srcs = [c2.node["args"][1]] + ([c2.node["args"][0]] if d2.endswith("chain") or d2.endswith("concat") else [])
+                for so in srcs:
+                    for e in _prov(prog, b, so):
+                        got |= {l[3][0] for l in _leaves(e) if l[0] == "param" and l[2] == 1 and l[3]}
+        # the vector is built by a method of the same object, called on `self`
+        if (c2.bb, c2.si) in vroots and depth < 2 and c2.node["args"]:
+            t = prog.body_for_callee(callee_of(c2), b)
+            if t is not None and t.kind != "closure" and t.impl and b.impl and t.impl.get("self_adt") == b.impl.get("self_adt"):
+                o0 = origins(b, c2.node["args"][0], transparent=_T)
+                if o0 and all(o.kind == "param" and o.data == 1 and not o.fields for o in o0):
+                    got |= _appended_self_fields(prog, t, {"l": 0, "p": []}, depth + 1)
+    return got
 
 
 def rule_dynamic_query_polarity(ctx):
